@@ -28,6 +28,13 @@ using namespace bpp;
 
 using namespace std;
 
+// The content of a parenthesised list "(a,b,c)".
+static string listContent_(const string& rf)
+{
+  if (rf.size() < 2)
+    throw Exception("BppODiscreteDistributionFormat::read. Expected a list between parentheses, found '" + rf + "'.");
+  return rf.substr(1, rf.length() - 2);
+}
 
 unique_ptr<DiscreteDistributionInterface> BppODiscreteDistributionFormat::readDiscreteDistribution(
     const std::string& distDescription,
@@ -79,12 +86,12 @@ unique_ptr<DiscreteDistributionInterface> BppODiscreteDistributionFormat::readDi
     vector<double> probas, values;
 
     string rf = args["values"];
-    StringTokenizer strtok(rf.substr(1, rf.length() - 2), ",");
+    StringTokenizer strtok(listContent_(rf), ",");
     while (strtok.hasMoreToken())
       values.push_back(TextTools::toDouble(strtok.nextToken()));
 
     rf = args["probas"];
-    StringTokenizer strtok2(rf.substr(1, rf.length() - 2), ",");
+    StringTokenizer strtok2(listContent_(rf), ",");
     while (strtok2.hasMoreToken())
       probas.push_back(TextTools::toDouble(strtok2.nextToken()));
 
@@ -93,7 +100,7 @@ unique_ptr<DiscreteDistributionInterface> BppODiscreteDistributionFormat::readDi
     if (args.find("ranges") != args.end())
     {
       string rr = args["ranges"];
-      StringTokenizer strtok3(rr.substr(1, rr.length() - 2), ",");
+      StringTokenizer strtok3(listContent_(rr), ",");
       string desc;
       double deb, fin;
       unsigned int num;
@@ -133,7 +140,7 @@ unique_ptr<DiscreteDistributionInterface> BppODiscreteDistributionFormat::readDi
     vector<unique_ptr<DiscreteDistributionInterface>> v_pdd;
     unique_ptr<DiscreteDistributionInterface> pdd;
     string rf = args["probas"];
-    StringTokenizer strtok2(rf.substr(1, rf.length() - 2), ",");
+    StringTokenizer strtok2(listContent_(rf), ",");
     while (strtok2.hasMoreToken())
       probas.push_back(TextTools::toDouble(strtok2.nextToken()));
 
